@@ -219,6 +219,9 @@ PROPS = {
             dict(run="pkg/zzc11.VerifC11BadgerMetrics", quick=dict(entries=1, ops=1), thorough=dict(entries=2, ops=1), covers=["batch-applied", "batch-refused", "done"]),
             dict(run="pkg/zzc11.VerifC11TiKV", quick=dict(entries=2, ops=1), thorough=dict(entries=2, ops=2), covers=["batch-applied", "batch-refused", "get-hit", "iter-several", "iter-descending", "changed-under-iterator", "done"], validate=2),
             dict(run="pkg/zzc11.VerifC11TiKVPartitions", covers=["several-regions", "all-three-regions", "done"]),
+            dict(run="pkg/zzc11.VerifC11ScanTiKV", quick=dict(scan=260, _loop=2000), thorough=dict(scan=520, _loop=4000), covers=["changed-under-long-scan", "done"]),
+            dict(run="pkg/zzc11.VerifC11ScanMemkv", quick=dict(scan=260, _loop=2000), thorough=dict(scan=520, _loop=4000), covers=["changed-under-long-scan", "done"]),
+            dict(run="pkg/zzc11.VerifC11ScanBadger", quick=dict(scan=260, _loop=2000), thorough=dict(scan=520, _loop=4000), covers=["changed-under-long-scan", "done"]),
         ],
         bounds=dict(quick="each of memkv, Badger, TiKV (and the metrics wrapper over memkv and over Badger): 2 initial entries with symbolic keys of 1..2 bytes over {a,b,c} and symbolic values; then one batch of 1 operation (memkv: 1..2) of put-if-absent / CAS / put / delete with symbolic key, value, expected value and TTL flag, or one Get, one Del, one compare-and-delete (entry optionally really changed under the iterator), or one iteration with symbolic bounds in either direction and limit 0..2 — differential against the contract store; the TiKV adapter's GetPartitions over 3 regions split at symbolic keys for any requested interval",
                     thorough="batches of up to 2 operations on every engine (several conditions, a condition on a key written or deleted earlier in the batch); 3 initial entries with single operations on memkv"),
@@ -240,10 +243,11 @@ PROPS = {
     ),
     "C12": dict(
         harnesses=[
-            dict(run="pkg/zzc12.VerifC12Engines", quick=dict(requests=2), thorough=dict(requests=2), covers=["write-ok", "compaction", "done"]),
+            dict(run="pkg/zzc12.VerifC12Engines", quick=dict(requests=2, prestates=1), thorough=dict(requests=2, prestates=1), covers=["write-ok", "compaction", "events", "done"]),
+            dict(run="pkg/zzc12.VerifC12Engines", name="C12_prestates", quick=dict(requests=1, prestates=6), thorough=dict(requests=2, prestates=6), covers=["write-ok", "compaction", "events", "done"]),
         ],
-        bounds=dict(quick="the same sequence of 2 symbolic requests (create / update / delete / get / list with limit / compact+count; 2 prefix-related keys, symbolic values, expected and read revisions) on five nodes: contract store, in-memory adapter, Badger adapter, TiKV adapter (mock cluster natively), metrics wrapper over Badger; pairwise identical answers",
-                    thorough="the same 2-request sequences (a third request exceeded the budget: 184 000 runs in 8 minutes without finishing)"),
-        outside="watch events across engines; concurrent histories; time-based expiry (engines differ by design: SupportTTL); multi-region TiKV (partitioning is C13's subject)",
+        bounds=dict(quick="the same sequence of 2 symbolic requests (create / update / delete / get / list with limit / compact+count; 2 prefix-related keys, symbolic values, expected and read revisions) on five nodes: contract store, in-memory adapter, Badger adapter, TiKV adapter (mock cluster natively), metrics wrapper over Badger; pairwise identical answers, identical events on a watch registered before the requests and on a watch started afterwards from a symbolic revision (served from the event cache or refused); and 1 symbolic request after each of six initial states of a key built through the API (never existed, live, updated, deleted, deleted and compacted away, created again after that)",
+                    thorough="the same, with 2 symbolic requests after each of the six initial states (a third request from the empty store exceeded the budget: 184 000 runs in 8 minutes without finishing)"),
+        outside="concurrent histories; time-based expiry (engines differ by design: SupportTTL); multi-region TiKV (partitioning is C13's subject); how events are grouped into batches",
     ),
 }
